@@ -344,7 +344,7 @@ class CylindricalSurfaceHistogram(TransformedHistogramMixin, HistogramND):
 
     @classmethod
     def _transform_correct_dimension(cls, value):
-        result = np.ndarray((*value.shape[-1], 2))
+        result = np.ndarray((*value.shape[:-1], 2))
         x, y, z = value.T
         result[..., 0] = np.arctan2(y, x) % (2 * np.pi)  # phi
         result[..., 1] = z
